@@ -181,6 +181,22 @@ def has_cycle(units: List[Unit], imports: Dict[int, List[int]]) -> bool:
     return any(color.get(u) is None and dfs(u) for u in range(len(units)))
 
 
+def inheritance_cycle(system) -> bool:
+    from pydoctor import model
+    color = {}
+
+    def dfs(c):
+        color[id(c)] = 1
+        for b in c.baseobjects:
+            if b is None:
+                continue
+            if color.get(id(b)) == 1 or (color.get(id(b)) is None and dfs(b)):
+                return True
+        color[id(c)] = 2
+        return False
+    return any(color.get(id(c)) is None and dfs(c) for c in system.allobjects.values() if isinstance(c, model.Class))
+
+
 def star_in_cycle(units: List[Unit], imports: Dict[int, List[int]]) -> bool:
     """is there a `from m import *` whose target lies on an import cycle through the importer?
     (Python's own result then depends on which module is imported first: outside the property)"""
@@ -332,6 +348,11 @@ def run(ctx: Ctx) -> None:
             # direct oracle: documented objects independent of the order
             if cyc and star_in_cycle(units, imports):
                 ctx.count("oracle-skipped:star-import-inside-cycle")
+                continue
+            if inheritance_cycle(s):
+                # class D(K) ... class K(D): not a Python program (NameError on import); what pydoctor makes of it
+                # depends on which class it meets first
+                ctx.count("oracle-skipped:cyclic-inheritance")
                 continue
             c = canon(s, hierarchy_only=cyc)
             mv = moved_origins(s) if cyc else {o.fullName() for o in s.allobjects.values()
